@@ -1,0 +1,119 @@
+//! Verification hooks. Compiled only with `--cfg compio_verif`; every hook is a
+//! no-op until a harness calls [`start`] on the current thread.
+//!
+//! The log records what happens to the per-connection waker tables: every
+//! registration made by a future that returned `Pending`, every event of the
+//! protocol state machine handled by the connection worker, `terminate`, and
+//! the removals done when a stream handle is dropped — each with the sizes of
+//! all tables afterwards.
+
+use std::cell::RefCell;
+
+/// Number of entries of [`Event::sizes`].
+pub const NSIZES: usize = 13;
+
+/// One recorded event.
+#[derive(Clone, Copy, Debug)]
+pub struct Event {
+    /// Identifies the connection (address of its state).
+    pub conn: u64,
+    /// Event kind, one of the constants of this module.
+    pub kind: u32,
+    /// First argument (table for [`REG`], event kind for [`EV_BEGIN`]).
+    pub a: u64,
+    /// Second argument (stream id or direction).
+    pub b: u64,
+    /// Table sizes after the action: `on_connected` (number of waiters), `on_handshake_data`,
+    /// `datagram_received`, `datagrams_unblocked`, `stream_opened[0..2]`,
+    /// `stream_available[0..2]`, `writable`, `readable`, `stopped`; then
+    /// whether an error is stored and whether the connection is connected.
+    pub sizes: [u32; NSIZES],
+}
+
+/// A future registered its waker (a = table, b = stream id / direction).
+pub const REG: u32 = 1;
+/// The worker is about to handle a protocol event (a = event, b = stream id /
+/// direction / for `Connected`: 1 when all stream wakers are woken too).
+pub const EV_BEGIN: u32 = 2;
+/// The worker has handled the event.
+pub const EV_END: u32 = 3;
+/// `terminate` starts (sizes before).
+pub const TERMINATE_BEGIN: u32 = 4;
+/// `terminate` is done.
+pub const TERMINATE_END: u32 = 5;
+/// A `SendStream` was dropped: its `stopped` / `writable` entries are gone (b = stream).
+pub const DROP_SEND: u32 = 6;
+/// A `RecvStream` was dropped: its `readable` entry is gone (b = stream).
+pub const DROP_RECV: u32 = 7;
+
+/// Tables, as numbered in [`REG`] events.
+pub const T_ON_CONNECTED: u64 = 0;
+/// `on_handshake_data`
+pub const T_ON_HANDSHAKE_DATA: u64 = 1;
+/// `datagram_received`
+pub const T_DATAGRAM_RECEIVED: u64 = 2;
+/// `datagrams_unblocked`
+pub const T_DATAGRAMS_UNBLOCKED: u64 = 3;
+/// `stream_opened[dir]`
+pub const T_STREAM_OPENED: u64 = 4;
+/// `stream_available[dir]`
+pub const T_STREAM_AVAILABLE: u64 = 5;
+/// `writable`
+pub const T_WRITABLE: u64 = 6;
+/// `readable`
+pub const T_READABLE: u64 = 7;
+/// `stopped`
+pub const T_STOPPED: u64 = 8;
+
+/// Protocol events, as numbered in [`EV_BEGIN`] events.
+pub const E_HANDSHAKE_DATA_READY: u64 = 1;
+/// `Connected`
+pub const E_CONNECTED: u64 = 2;
+/// `ConnectionLost`
+pub const E_CONNECTION_LOST: u64 = 3;
+/// `Stream(Readable)`
+pub const E_READABLE: u64 = 4;
+/// `Stream(Writable)`
+pub const E_WRITABLE: u64 = 5;
+/// `Stream(Finished)`
+pub const E_FINISHED: u64 = 6;
+/// `Stream(Stopped)`
+pub const E_STOPPED: u64 = 7;
+/// `Stream(Available)`
+pub const E_AVAILABLE: u64 = 8;
+/// `Stream(Opened)`
+pub const E_OPENED: u64 = 9;
+/// `DatagramReceived`
+pub const E_DATAGRAM_RECEIVED: u64 = 10;
+/// `DatagramsUnblocked`
+pub const E_DATAGRAMS_UNBLOCKED: u64 = 11;
+
+thread_local! {
+    static LOG: RefCell<Option<Vec<Event>>> = const { RefCell::new(None) };
+}
+
+/// Start recording on this thread (drops an earlier log).
+pub fn start() {
+    LOG.with(|l| *l.borrow_mut() = Some(Vec::new()));
+}
+
+/// Stop recording on this thread and return the log.
+pub fn take() -> Vec<Event> {
+    LOG.with(|l| l.borrow_mut().take()).unwrap_or_default()
+}
+
+pub(crate) fn recording() -> bool {
+    LOG.with(|l| l.borrow().is_some())
+}
+
+pub(crate) fn emit(e: Event) {
+    LOG.with(|l| {
+        if let Some(v) = l.borrow_mut().as_mut() {
+            v.push(e);
+        }
+    });
+}
+
+pub(crate) fn stream_id(id: quinn_proto::StreamId) -> u64 {
+    quinn_proto::VarInt::from(id).into_inner()
+}
